@@ -352,7 +352,7 @@ def worker(ctx):
                     wide_ints(1, 300, signed=False), wide_ints(1, 3000, signed=False))
     forms = st.one_of(st.sampled_from(["dec", "hex", "bin", "oct", "b64"]), st.integers(2, 36).map(str))
     ints = st.builds(lambda n, f, u: {"t": "int", "n": n, "form": f, "upper": u}, big, forms, st.booleans())
-    rats = st.integers(0, 2 ** 70).map(lambda n: {"t": "rat", "n": n})
+    rats = st.one_of(st.integers(0, 2 ** 70), wide_ints(1, 200, signed=False)).map(lambda n: {"t": "rat", "n": n})
     ftext = st.one_of(st.builds(lambda a, b: "%d.%s" % (a, b), st.integers(0, 10 ** 6), st.text(alphabet="0123456789", min_size=1, max_size=8)),
                       st.builds(lambda a, b, e: "%d.%se%d" % (a, b, e), st.integers(0, 999), st.text(alphabet="0123456789", min_size=1, max_size=5), st.integers(-320, 308)),
                       st.builds(lambda a, e: "%de%d" % (a, e), st.integers(0, 9999), st.integers(-320, 300)),
